@@ -73,7 +73,7 @@ def failing : Sexp → List String
 * a placeholder is present ⇔ printing failed with an unresolved-placeholder error;
 * no placeholder and well-formed ⇒ printing succeeded and the text parsed to an equivalent program;
 * the debug serializer produced a text (that lexes). -/
-def specOnOut (is : List Instruction) (out : Sexp) : Bool × String :=
+def specOnOut (is : List Instruction) (out : Sexp) (guardKeys : Bool := false) : Bool × String :=
   let l := (build is).listing
   let ph := hasPlaceholders l
   let wf := wellFormeds l
@@ -92,8 +92,10 @@ def specOnOut (is : List Instruction) (out : Sexp) : Bool × String :=
     | .list [.atom "reparse", .list [.atom "ok", .list (.atom "listing" :: xs)]] => decodeInstructions xs
     | _ => none
   let c1 := ph == printErr && (ph || printOk)
-  -- calibrations whose structurally different keys print alike merge on re-parsing: excluded explicitly
-  let keys := calKeysStable l
+  -- calibrations whose structurally different keys print alike merge on re-parsing: the property fails there
+  -- (known finding C04/calibration-keys-print-alike); `guardKeys` evaluates the clause without those programs so
+  -- that the finding can be classified narrowly
+  let keys := !guardKeys || calKeysStable l
   let c2 := if !ph && wf && keys then (match reparsed with | some r => equivInstrs l r | none => false) else true
   -- the sibling routes: always-clauses for every program, wf-clauses for well-formed placeholder-free ones
   let c3 := allTrue "always" (piece out 6)
@@ -125,6 +127,8 @@ def handle (inp out : Sexp) : CaseResult :=
            | .list [.atom "print", .list (.atom "ok" :: _)], .list [.atom "print", .list (.atom "ok" :: _)] => true
            | _, _ => false)
       let (spec, specDetail) := specOnOut is out
+      -- the ONLY reason the spec fails is the merge of print-alike calibration keys
+      let kfKeys := !spec && !calKeysStable l && (specOnOut is out true).1
       let diffs := ((List.range 5).filter fun k => piece mOut k != piece out k) ++ (if eachOk then [] else [5])
       let normChanged := match piece out 3 with
         | .list [.atom "reparse", .list [.atom "ok", lst]] => lst != listingSexp "listing" l
@@ -135,6 +139,7 @@ def handle (inp out : Sexp) : CaseResult :=
             (if wf then "wellformed" else "not-wellformed"),
             (if ph then "placeholder" else "no-placeholder"),
             (if calKeysStable l then "cal-keys-stable" else "CAL-KEYS-MERGE"),
+            (if kfKeys then "kf:C04/calibration-keys-print-alike" else "no-kf"),
             (if normChanged then "reparsed-differs-structurally" else "reparsed-identical"),
             (match piece out 7 with
              | .list (.atom "wf" :: xs) =>
